@@ -73,6 +73,14 @@ def _gen_starts(rw, N, L, K):
     r = rw.random()
     if span == 0:
         return [0] * K
+    if K >= 3 and span >= 2 * (K - 1) and rw.random() < 0.12:
+        # "looks evenly spaced": first hop h and last - first == h*(K-1), but the interior is irregular
+        h = rw.randrange(1, span // (K - 1) + 1)
+        s0 = rw.randrange(0, span - h * (K - 1) + 1)
+        inner = [rw.randrange(s0, s0 + h * (K - 1) + 1) for _ in range(K - 3)]
+        if rw.random() < 0.6:
+            inner.sort()
+        return [s0, s0 + h] + inner + [s0 + h * (K - 1)]
     if r < 0.4:
         return sorted(rw.randrange(0, span + 1) for _ in range(K))
     if r < 0.6:
@@ -105,7 +113,13 @@ def generate(seed, tier):
         L = rw.choice([1, 1, 2, 3, 4, 5, 8, 16, 31, 32, 64, 96, rw.randrange(1, 97)])
         K = rw.choice([1, 2, 2, 3, 3, 4, 5, 6, 8, 12])
         N = L + rw.choice([0, 0, 1, 5, rw.randrange(0, 200)])
-    gpu_wide = (not big) and rw.random() < 0.02
+    gpu_long = (not big) and rw.random() < 0.02
+    if gpu_long:        # long segments on the simulated GPU (error growth along the segment), few of them
+        L = rw.choice([256, 512, 1024])
+        K = rw.choice([1, 2])
+        N = L + rw.randrange(0, 64)
+        order = rw.choice([1, 2, 2])
+    gpu_wide = (not big) and (not gpu_long) and rw.random() < 0.02
     if gpu_wide:        # a grid wider than one default block: K > 128 / > 256 with the shipped THREADS_PER_BLOCK
         L = rw.randrange(1, 6)
         K = rw.choice([129, 200, 257, 300, 513])
@@ -120,6 +134,14 @@ def generate(seed, tier):
         "omega": _gen_omega(rw, L), "data": data, "via": via, "fs": rw.choice([1.0, 2.0, 100.0]),
         "worlds": [W.gen_world(rf, k, K, heavy=True) for k in kinds],
     }
+    if gpu_long:
+        sc["worlds"] = [ws for ws in sc["worlds"] if ws["world"] in ("sim-cuda", "numpy")]
+        sc["data"]["recipe"] = rw.choice(["offset+noise", "trend+noise", "randwalk"])
+        sc["via"] = "kernel"
+        for ws in sc["worlds"]:
+            if ws["world"] == "sim-cuda":
+                ws["tpb"] = 2
+                ws["policy"] = "serial_perm"
     if gpu_wide:
         sc["worlds"] = [ws for ws in sc["worlds"] if ws["world"] in ("sim-cuda", "numpy")]
         for ws in sc["worlds"]:
